@@ -547,12 +547,67 @@ def rule_decoders(model):
                               node=d, ctx=fi)
     # join_unicode: only bytes elements are decoded, order kept
     ju = model.func('_DocumentTemplate', 'join_unicode')
-    src = ast.unparse(ju.node)
-    r.instance(ju.where, "''.join(rendered)")
-    if "''.join(rendered)" not in src or 'sorted(' in src or \
-            'reversed(' in src:
+    pieces = ju.params()[0]
+
+    busy = set()
+
+    def in_order(e, depth=0):
+        # e holds the pieces in list order: the parameter, a list() copy,
+        # a local bound to one of those, or a comprehension over one of
+        # those that yields the element (decoded or not)
+        if isinstance(e, ast.Name):
+            if depth > 4:
+                return False
+            ds = model.local_defs(ju, e.id)
+            ok = bool(ds)
+            for d in ds:
+                if isinstance(d, ast.AST):
+                    if id(d) in busy:
+                        continue        # rendered = list(rendered)
+                    busy.add(id(d))
+                    try:
+                        ok = ok and in_order(d, depth + 1)
+                    finally:
+                        busy.discard(id(d))
+                elif not (d == 'param' and e.id == pieces):
+                    ok = False
+            return ok
+        if isinstance(e, ast.Call) and isinstance(e.func, ast.Name) and \
+                e.func.id in ('list', 'tuple') and len(e.args) == 1:
+            return in_order(e.args[0], depth + 1)
+        if isinstance(e, (ast.ListComp, ast.GeneratorExp)) and \
+                len(e.generators) == 1 and not e.generators[0].ifs and \
+                isinstance(e.generators[0].target, ast.Name):
+            v = e.generators[0].target.id
+
+            def elt_ok(x):
+                if isinstance(x, ast.Name):
+                    return x.id == v
+                if isinstance(x, ast.IfExp):
+                    return elt_ok(x.body) and elt_ok(x.orelse)
+                if isinstance(x, ast.Call) and isinstance(
+                        x.func, ast.Attribute) and x.func.attr == 'decode':
+                    return elt_ok(x.func.value)
+                return False
+            return elt_ok(e.elt) and in_order(e.generators[0].iter,
+                                              depth + 1)
+        return False
+    rets = [x for x in own_nodes(ju.node) if isinstance(x, ast.Return)]
+    bad = []
+    for x in rets:
+        v = x.value
+        ok = isinstance(v, ast.Call) and isinstance(v.func, ast.Attribute) \
+            and v.func.attr == 'join' and isinstance(
+                v.func.value, ast.Constant) and v.func.value.value == '' \
+            and len(v.args) == 1 and in_order(v.args[0])
+        r.instance(ju.where, x, 'joined in list order' if ok
+                   else 'NOT THE ORDERED JOIN')
+        if not ok:
+            bad.append(x)
+    if bad or not rets:
         r.finding(ju.where, 'join', 'join_unicode does not concatenate the '
-                  'pieces in list order', node=ju.node, ctx=ju)
+                  'pieces in list order', node=bad[0] if bad else ju.node,
+                  ctx=ju)
     return r
 
 
